@@ -1020,7 +1020,7 @@ pub(crate) fn rg_cas_lost_then_restored() {
     rg_cas(5, Script { at_access: [0, 0, 0, 0, 0, 0], at_cas: [2, 0], after_cas: [1, 0], at_load: [0; 4] }, OCC_EMPTY);
     vcover!("rg_cas_lost_then_restored_end");
 }
-// @harness name=rg_cas_restored_after_first_read props=C05,C06,C04 tier=quick flavour=nostd timeout=1800 fn=HybridStrategy::compare_and_swap+ArcSwapAny::compare_and_swap
+// @harness name=rg_cas_restored_after_first_read props=C05,C06,C04 tier=thorough flavour=nostd timeout=3000 fn=HybridStrategy::compare_and_swap+ArcSwapAny::compare_and_swap
 #[cfg_attr(kani, kani::proof)]
 #[cfg_attr(kani, kani::stub(crate::debt::Debt::pay_all, crate::debt::verif_h::pay_all_stub))]
 #[cfg_attr(kani, kani::stub(crate::debt::LocalNode::with, crate::debt::verif_h::list_h::with_static))]
@@ -1129,4 +1129,15 @@ pub(crate) fn solo_store_helps_two_readers() {
     vassert!(model::steps() <= 128, "writer_finishes_in_bounded_own_steps");
     mem::forget(s);
     vcover!("solo_store_helps_two_readers_end");
+}
+// the same interference with all fast slots taken (the internal load goes through the helping path)
+// @harness name=rg_cas_restored_after_first_read_full props=C05,C06,C04 tier=quick flavour=nostd timeout=1800 fn=HybridStrategy::compare_and_swap+ArcSwapAny::compare_and_swap
+#[cfg_attr(kani, kani::proof)]
+#[cfg_attr(kani, kani::stub(crate::debt::Debt::pay_all, crate::debt::verif_h::pay_all_stub))]
+#[cfg_attr(kani, kani::stub(crate::debt::LocalNode::with, crate::debt::verif_h::list_h::with_static))]
+#[cfg_attr(kani, kani::stub(crate::debt::Node::get, crate::debt::verif_h::list_h::node_get_unexpected))]
+#[cfg_attr(kani, kani::unwind(12))]
+pub(crate) fn rg_cas_restored_after_first_read_full() {
+    rg_cas(4, Script { at_access: [0, 2, 0, 0, 0, 0], at_cas: [0, 0], after_cas: [0, 0], at_load: [0; 4] }, OCC_FULL);
+    vcover!("rg_cas_restored_after_first_read_full_end");
 }
